@@ -684,6 +684,28 @@ def run(ctx):
     from checks import common
     common.check_linear_fields(ctx, 'C16.R1', prog)
 
+    # ---------------------------------------------------------- R8 shared determinants
+    # With shared_determinants the largest determinant per partner is written,
+    # value and sign unchanged, into every group of a covalently coupled system.
+    # The sign of a determinant was fixed by the charge of its owner, so it is
+    # meaningful only among groups of one charge sign (a ligand carboxylate and
+    # amidinium carbon are coupled: the base got -0.85 from a backbone bond).
+    ccm8 = prog.mod('conformation_container')
+    ceff = ccm8.func('ConformationContainer.coupling_effects')
+    shares = [c for c in calls_in(ceff) if last_attr(c) == 'share_determinants']
+    c8 = canon(ceff)
+    like8 = bool(shares)
+    for c in shares:
+        arg = c8.expr(c.args[0]) if c.args else None
+        by_sign = isinstance(arg, ast.ListComp) and any(
+            isinstance(x, ast.Attribute) and x.attr == 'charge'
+            for g in arg.generators for cond in g.ifs for x in ast.walk(cond))
+        like8 = like8 and by_sign
+    ctx.ob('C16.R8', 'shared-determinants:like-charged-groups-only', like8,
+           'coupling_effects shares determinants among the groups of one charge sign only '
+           '(%d sharing calls, each on a list filtered by the sign of the charge)' % len(shares),
+           ccm8, shares[0] if shares else ceff)
+
     # ---------------------------------------------------------- R7 swapped determinants
     # The coupled-residue display mode (-d) leaves the determinants of a coupled
     # pair exchanged.  For two acids or two bases the exchanged values keep the
